@@ -49,4 +49,5 @@ Proof. unfold dot3. nra. Qed.
    numerals like 2 into Qmult on positives and break ring) *)
 Ltac vred := cbn [v2x v2y v3x v3y v3z lr2p lr2v lr3p lr3v pl_n pl_o pl_k pl_x pl_y
                   a2_c a2_r a2_a1 a2_a2 a3_plane a3_arc2d sp_c sp_r
-                  co_vertex co_axis co_angle cy_c cy_axis cy_r pg_vertices fst snd] in *.
+                  co_vertex co_axis co_angle cy_c cy_axis cy_r pg_vertices f3_boundary f3_holes f3_plane
+                  pl2_vertices pl2_interp pl3_vertices pl3_interp m2_vertices m2_faces m3_vertices m3_faces fst snd] in *.
